@@ -9,8 +9,11 @@ uses the predicates of `Spec/C18.lean` that the runner applies to the implementa
 Quantifiers: every configuration, every time line (any events, any number of addresses, any spacing
 relative to window and ban duration) and every placement of the asynchronous steps — the lazily
 spawned `unbanIfExpired` / `removeExpiredFromBlacklist` goroutines and the clean-up passes are
-ordinary events that may sit anywhere, and `RecordFailure` may be cut between its two critical
-sections (`failRec` / `failBan i`), with other calls, also of the same address, in between.
+ordinary events that may sit anywhere, `RecordFailure` may be cut between its two critical
+sections (`failRec` / `failBan i`), the clean-up pass between its two (`cleanFr` / `cleanBan`), and
+a ban sweep between a scan and a (re-checking) delete phase (`sweepScan` / `sweepDelete`), with
+other calls, also of the same address, in between.  For the code as it is, `skel_cleanup` justifies
+the one-step `cleanup`; `blind_sweep_witness` shows what a delete phase without the re-check does.
 
 Hypotheses (`WF`): time stamps do not decrease and are ≥ 1 (`Sorted 1`); `0 < BanDuration`
 (Go: a zero duration *is* the permanent-ban call); for the rate bound `Burst·U ≤ Rate·TTL`
@@ -207,6 +210,25 @@ example :
             (60, .isAllowed 167838211), (60, .removeBlack ⟨167772160, some 8⟩), (60, .isAllowed 167838211),
             (80, .addBlack ⟨167838211, none⟩ 0), (80, .asyncRemove 167838211), (80, .isAllowed 167838211)] IPM.empty
       = [none, none, some false, some false, none, some true, none, none, some false] := by decide
+
+/-- the clean-up pass cut into its critical sections, and a ban sweep cut into scan and delete phase
+with the threshold-reaching failure of an address between the two phases: the fresh ban survives. -/
+example :
+    run ⟨3, 10000, 150, 1000⟩ [(1, .fail 1), (1, .fail 1), (1, .fail 1), (152, .cleanFr), (152, .sweepScan), (152, .fail 1),
+                                (152, .sweepDelete), (152, .cleanBan), (153, .query 1)] State.empty
+      = [some false, some false, some true, none, none, some true, none, none, some true] := by decide
+
+/-- **Witness of the regression the split exists for**: a delete phase that removes what the scan
+phase collected *without looking at the record again* erases the ban written between the phases —
+the address is admitted (`isBanned = false`) although the ledger refuses it. -/
+theorem blind_sweep_witness :
+    let cfg : BruteForceConfig := ⟨3, 10000, 150, 1000⟩
+    let c0 : Comp := (compStep cfg 1 (.fail 1) (compStep cfg 1 (.fail 1) (compStep cfg 1 (.fail 1) Comp.empty).1).1).1
+    let c1 : Comp := (compStep cfg 152 (.fail 1) (compStep cfg 152 .sweepScan c0).1).1
+    let l1 : Ledger := (ledgerStep cfg 152 (.fail 1) (ledgerStep cfg 1 (.fail 1) (ledgerStep cfg 1 (.fail 1)
+                        (ledgerStep cfg 1 (.fail 1) Ledger.empty).1).1).1).1
+    c1.marked = true ∧ isBanned 153 (if c1.marked then none else c1.ban) = false ∧ l1.refuses 153 = true ∧
+    isBanned 153 (compStep cfg 152 .sweepDelete c1).1.ban = true := by decide
 
 /-- burst 2, 20 tokens/s, milliseconds: two admitted at once, the third refused, one more 60 ms later. -/
 example :
